@@ -160,6 +160,10 @@ def normalize_slice(idx, dim):
         elif step < 0:
             if start >= dim - 1:
                 start = None
+            elif start < 0:
+                # ``indices`` clips a start before the first element to -1;
+                # read back as an index that would mean the last element.
+                return slice(0, 0, None)
             if stop < 0:
                 stop = None
         return slice(start, stop, step)
